@@ -38,6 +38,7 @@ func dev(args []string) {
 	dump := fs.String("dump", "", "write SMT scripts to this directory")
 	timeout := fs.Int("t", 10, "solver timeout per obligation (s)")
 	verbose := fs.Bool("v", false, "print notes")
+	genOnly := fs.Bool("gen", false, "generate only: list the obligations without solving")
 	mutate := fs.String("mutate", "", "file§old§new: verify with this textual replacement applied in an overlay")
 	fs.Parse(args)
 	t0 := time.Now()
@@ -103,6 +104,13 @@ func dev(args []string) {
 			for _, o := range tr.Obls {
 				os.WriteFile(*dump+"/"+sanitize(o.Name)+".smt2", []byte(tr.ScriptFor(o.Cond)+"(assert "+o.Cond+")\n(check-sat)\n"), 0o644)
 			}
+		}
+		if *genOnly {
+			fmt.Printf("== %s: %d obligations, gen %.2fs (%d KB)\n", tr.Name, len(tr.Obls), gen, tr.Size/1024)
+			for _, o := range tr.Obls {
+				fmt.Printf("   %s %v\n", o.Name, o.Props)
+			}
+			continue
 		}
 		t2 := time.Now()
 		rs := vc.Solve(tr, opts)
